@@ -29,9 +29,17 @@ EXPLANATION = (
     "(R6) NULL array entries: unpack_single_value returns None for None "
     "before delegating to the helpers that require a value; (R7) the "
     "reader's default for each optional attribute equals the DTD default. "
-    "Does not decide value fidelity (exact string content, CR/LF "
-    "normalisation by the XML layer, float digits) or byte-identical "
-    "re-encoding.")
+    "(R8) children are parsed and written in document order: no sorting / "
+    "set conversion on the encode/parse path (outside message formatting "
+    "and the unordered SCOPE attributes) and every child-parsing loop of "
+    "TupleParser runs directly over the child list, not nested in a loop "
+    "over element names; (R9) the text of a string value is carried "
+    "unchanged: pcdata(), every parse method that reads pcdata, "
+    "unpack_value, the string branch of unpack_single_value, the SAX "
+    "character handler, the str branch of atomic_to_cim_xml, VALUE, "
+    "_pcdata_nodes and _text apply no text-transforming method, slice or "
+    "re.sub to it. Does not decide CR/LF normalisation by the XML layer, "
+    "float digits (C06) or byte-identical re-encoding.")
 ASSUMPTIONS = [
     "tests/dtd/DSP0203_2.3.1.dtd is the DSP0203 DTD",
     "the reader tolerates more than the DTD (EMBEDDEDOBJECT upper-case, TYPE "
@@ -410,3 +418,266 @@ def run(repo, rep, tier):
                                 % (a, e, rdef, ddef))
     if r7.sites < 15:
         raise AnalysisError('only %d attribute defaults found' % r7.sites)
+
+    _order_and_text_rules(repo, rep, tp)
+
+
+REORDER_FUNCS = {'sorted', 'reversed', 'set', 'frozenset'}
+REORDER_METHODS = {'sort', 'reverse'}
+TEXT_TRANSFORMS = {'strip', 'lstrip', 'rstrip', 'lower', 'upper', 'title',
+                   'capitalize', 'swapcase', 'casefold', 'expandtabs',
+                   'replace', 'translate', 'splitlines', 'split', 'rsplit',
+                   'zfill', 'center', 'ljust', 'rjust', 'format',
+                   'removeprefix', 'removesuffix', 'partition',
+                   'rpartition'}
+XML = 'pywbem/_cim_xml.py'
+TT = 'pywbem/_tupletree.py'
+
+
+def _loops_around(func):
+    """{id(node): [enclosing For / comprehension-generator nodes, outermost
+    first]} for the nodes of func (nested defs excluded)."""
+    out = {}
+
+    def rec(node, stack):
+        out[id(node)] = stack
+        if isinstance(node, (ast.FunctionDef, ast.AsyncFunctionDef,
+                             ast.Lambda)) and node is not func.node:
+            return
+        if isinstance(node, (ast.For, ast.AsyncFor)):
+            rec(node.target, stack)
+            rec(node.iter, stack)
+            for st in node.body:
+                rec(st, stack + [node])
+            for st in node.orelse:
+                rec(st, stack)
+            return
+        if isinstance(node, (ast.ListComp, ast.SetComp, ast.GeneratorExp,
+                             ast.DictComp)):
+            st2 = list(stack)
+            for g in node.generators:
+                rec(g.iter, st2)
+                st2 = st2 + [g]
+                for c in g.ifs:
+                    rec(c, st2)
+            for fld in ('elt', 'key', 'value'):
+                if hasattr(node, fld):
+                    rec(getattr(node, fld), st2)
+            return
+        for c in ast.iter_child_nodes(node):
+            rec(c, stack)
+    rec(func.node, [])
+    return out
+
+
+def _order_and_text_rules(repo, rep, tp):
+    r8 = rep.rule('C01.R8', 'children are parsed and written in document '
+                  'order')
+    r9 = rep.rule('C01.R9', 'the text of a string value is carried '
+                  'unchanged')
+    # ---- R8a: no reordering operation on the wire path -------------------
+    wire = []
+    for m in (repo.module(TP), repo.module(XML), repo.module(TT)):
+        wire.extend(m.all_funcs())
+    for c in repo.module(OBJ).classes.values():
+        for n in ('tocimxml', 'tocimxmlstr'):
+            if n in c.methods:
+                wire.append(c.methods[n])
+    wire.append(repo.func(OBJ, 'tocimxml'))
+    for f in wire:
+        r8.functions.add(f.fq)
+        msg_only = set()     # inside a raise / message formatting call
+        for n in walk_no_nested(f.node):
+            if isinstance(n, ast.Raise) or (
+                    isinstance(n, ast.Call) and (dotted(n.func) or '') in (
+                        '_format', 'warnings.warn')):
+                msg_only.update(id(x) for x in ast.walk(n))
+        for n in walk_no_nested(f.node):
+            if not isinstance(n, ast.Call) or id(n) in msg_only:
+                continue
+            d = dotted(n.func) or ''
+            bad = d in REORDER_FUNCS or (
+                isinstance(n.func, ast.Attribute) and
+                n.func.attr in REORDER_METHODS)
+            if not bad:
+                continue
+            r8.sites += 1
+            # XML attributes are unordered: sorting what becomes attribute
+            # names (SCOPE) cannot change child order
+            into_attr = f.cls is not None and f.cls.name == 'SCOPE'
+            r8.ob(into_attr, '%s|%s' % (f.qualname, norm(n, 60)),
+                  {'function': f.qualname, 'call': norm(n, 60),
+                   'accepted_because': 'feeds XML attributes (unordered)'
+                   if into_attr else None})
+            if not into_attr:
+                rep.finding(r8, f.qualname, norm(n, 60), 'reorder', f.file,
+                            n.lineno, 'a reordering operation on the '
+                            'CIM-XML encode/parse path: child order is not '
+                            'kept')
+    # ---- R8b: child-parsing loops run over the child list, un-nested -----
+    nparse = 0
+    for f in list(tp.methods.values()):
+        loops = None
+        for n in walk_no_nested(f.node):
+            if not (isinstance(n, ast.Call) and
+                    isinstance(n.func, ast.Attribute) and
+                    isinstance(n.func.value, ast.Name) and
+                    n.func.value.id == 'self' and
+                    n.func.attr.startswith('parse_') and n.args and
+                    isinstance(n.args[0], ast.Name)):
+                continue
+            if loops is None:
+                loops = _loops_around(f)
+            stack = loops.get(id(n), [])
+            var = n.args[0].id
+            binder = None
+            for lp in stack:
+                tgt = lp.target
+                if isinstance(tgt, ast.Name) and tgt.id == var:
+                    binder = lp
+            if binder is None:
+                continue          # a single child, not a loop variable
+            nparse += 1
+            r8.sites += 1
+            outer = [lp for lp in stack if lp is not binder and
+                     stack.index(lp) < stack.index(binder)]
+            it = binder.iter
+            reorder = any(isinstance(x, ast.Call) and (
+                (dotted(x.func) or '') in REORDER_FUNCS) for x in
+                ast.walk(it))
+            ok = not outer and not reorder
+            r8.ob(ok, '%s|%s' % (f.qualname, norm(n, 60)),
+                  {'function': f.qualname, 'parse_call': norm(n, 60),
+                   'iterates': norm(it, 60),
+                   'enclosing_loops': [norm(getattr(lp, 'iter', lp), 40)
+                                       for lp in outer]})
+            if not ok:
+                rep.finding(r8, f.qualname, norm(n, 60), 'nested-loop',
+                            TP, n.lineno,
+                            'children are parsed inside an outer loop (%s): '
+                            'the result is grouped by that loop instead of '
+                            'following the order of the child elements'
+                            % ', '.join(norm(getattr(lp, 'iter', lp), 40)
+                                        for lp in outer) if outer else
+                            'the child list is reordered before parsing')
+    if nparse < 5:
+        raise AnalysisError('only %d child-parsing loops found in '
+                            'TupleParser' % nparse)
+
+    # ---- R9: text channel ---------------------------------------------------
+    def scan(func, seeds, stmts=None, allow=()):
+        """forward taint from the seed names inside func; report
+        transforming method calls / slices applied to tainted text."""
+        tainted = set(seeds)
+        problems = []
+        body = stmts if stmts is not None else func.body
+        for _ in range(3):
+            for st in body:
+                for n in ast.walk(st):
+                    if isinstance(n, ast.Assign) and any(
+                            isinstance(x, ast.Name) and x.id in tainted
+                            for x in ast.walk(n.value)):
+                        for t in n.targets:
+                            if isinstance(t, ast.Name):
+                                tainted.add(t.id)
+                    if isinstance(n, (ast.For, ast.comprehension)) and any(
+                            isinstance(x, ast.Name) and x.id in tainted
+                            for x in ast.walk(n.iter)) and \
+                            isinstance(n.target, ast.Name):
+                        tainted.add(n.target.id)
+        for st in body:
+            for n in ast.walk(st):
+                if isinstance(n, ast.Call) and \
+                        isinstance(n.func, ast.Attribute) and \
+                        n.func.attr in TEXT_TRANSFORMS and any(
+                            isinstance(x, ast.Name) and x.id in tainted
+                            for x in ast.walk(n.func.value)):
+                    if norm(n) in allow:
+                        continue
+                    problems.append(n)
+                if isinstance(n, ast.Subscript) and \
+                        isinstance(n.slice, ast.Slice) and \
+                        isinstance(n.value, ast.Name) and \
+                        n.value.id in tainted and norm(n) not in allow:
+                    problems.append(n)
+                if isinstance(n, ast.Call) and (dotted(n.func) or '') in (
+                        're.sub', 'textwrap.dedent') and any(
+                            isinstance(x, ast.Name) and x.id in tainted
+                            for x in ast.walk(n)):
+                    problems.append(n)
+        return problems
+
+    def judge(func, seeds, what, stmts=None, allow=()):
+        r9.sites += 1
+        r9.functions.add(func.fq)
+        probs = scan(func, seeds, stmts, allow)
+        r9.ob(not probs, func.qualname + ':' + what,
+              {'function': func.qualname, 'channel': what,
+               'seeds': sorted(seeds)})
+        for n in probs:
+            rep.finding(r9, func.qualname, norm(n, 60), 'text-changed',
+                        func.file, n.lineno,
+                        'the %s is transformed here (%s): string values do '
+                        'not arrive with exactly the characters that were '
+                        'sent' % (what, norm(n, 50)))
+
+    judge(repo.func(TP, 'pcdata'), {'tup_tree'}, 'character data of VALUE')
+    users = [f for f in tp.methods.values() if any(
+        isinstance(n, ast.Call) and dotted(n.func) == 'pcdata'
+        for n in walk_no_nested(f.node))]
+    if len(users) < 3:
+        raise AnalysisError('only %d TupleParser methods read pcdata()'
+                            % len(users))
+    for f in users:
+        judge(f, {'tup_tree'}, 'character data of <%s>'
+              % f.name[6:].upper().replace('_', '.'))
+    judge(tp.methods['parse_value_array'], {'tup_tree'},
+          'character data of VALUE.ARRAY items')
+    judge(tp.methods['unpack_value'], {'tup_tree'}, 'value text')
+    usv = tp.methods['unpack_single_value']
+    upto = []
+    found = False
+    for st in usv.body:
+        upto.append(st)
+        if isinstance(st, ast.If) and norm(st.test) in (
+                "cimtype == 'string'", "cimtype in ('string',)"):
+            found = True
+            ret = [x for x in st.body if isinstance(x, ast.Return)]
+            ok = bool(ret) and isinstance(ret[0].value, ast.Name) and \
+                ret[0].value.id == 'data'
+            r9.ob(ok, 'unpack_single_value:string-branch',
+                  {'returns': norm(ret[0]) if ret else None})
+            if not ok:
+                rep.finding(r9, usv.qualname, norm(st, 60), 'text-changed',
+                            TP, st.lineno, 'the string branch does not '
+                            'return the received text itself')
+            break
+    if not found:
+        raise AnalysisError('unpack_single_value: string branch not found')
+    judge(usv, {'data'}, 'string value text', stmts=upto)
+    hnd = repo.cls(TT, 'CIMContentHandler')
+    judge(hnd.methods['characters'], {'content'}, 'SAX character data')
+    # writer side
+    atom = repo.func(TYP, 'atomic_to_cim_xml')
+    sbranch = [n for n in walk_no_nested(atom.node) if isinstance(n, ast.If)
+               and norm(n.test) == 'isinstance(obj, str)']
+    if not sbranch:
+        raise AnalysisError('atomic_to_cim_xml: str branch not found')
+    r9.sites += 1
+    r9.functions.add(atom.fq)
+    ret = [x for x in sbranch[0].body if isinstance(x, ast.Return)]
+    ok = bool(ret) and isinstance(ret[0].value, ast.Name) and \
+        ret[0].value.id == 'obj'
+    r9.ob(ok, 'atomic_to_cim_xml:str-branch',
+          {'returns': norm(ret[0]) if ret else None})
+    if not ok:
+        rep.finding(r9, atom.qualname, norm(sbranch[0], 60), 'text-changed',
+                    TYP, sbranch[0].lineno, 'the str branch does not return '
+                    'the string itself')
+    val = repo.cls(XML, 'VALUE')
+    judge(val.methods['__init__'], {'pcdata'}, 'VALUE text')
+    # the CDATA variant splits at ']]>' and re-joins with the two halves of
+    # the end marker: value-preserving by construction
+    judge(repo.func(XML, '_pcdata_nodes'), {'pcdata'}, 'VALUE text',
+          allow=('pcdata.split(\']]>\')',))
+    judge(repo.func(XML, '_text'), {'data'}, 'VALUE text')
